@@ -113,6 +113,9 @@ var c08Programs = []string{
 	"func f\n    return 1\nend\nfunc g:num\n    print 1\nend\nbreak\nreturn\nf 1 2\ny := g 1\n",
 	"print (typeof {a:1 b:\"s\"}) (typeof {a:[] b:{}}) (typeof [{a:1} {b:\"x\"} {}])\n",
 	"a:any\na = {p:1 q:[2] r:{s:3}}\nb := a.({}any)\nfor k := range b\n    print k b[k] (typeof b[k])\nend\n",
+	// every way a map value is duplicated keeps its insertion order: repetition, concatenation, slicing, assignment, any-wrapping, arguments, return values
+	"row := [{x:0 y:1 c:\"r\"}] * 2\nprint row\nrow[0].z = 5\nprint row (row + [{q:1 p:2}]) row[0:1]\n",
+	"func id:{}num m:{}num\n    return m\nend\nm := {c:3 a:1 b:2}\nn := id m\nx:any\nx = m\ny := [m m]\nz := {k:m}\nprint n x y z x.({}num)\nfor k := range (id m)\n    print k\nend\n",
 }
 
 func runC08(w *fw.Worker) {
